@@ -6,11 +6,6 @@ the operation proper on the stable anchor, the stabilisation of the thread's own
 namespace PikaVerif.Deque
 open PikaVerif
 
-/-- the thread an event belongs to -/
-def Ev.tid : Ev → Nat
-  | .inv t _ _ _ | .alloc t _ | .ld t _ | .chk t _ | .rd t _ | .link t _ _ | .lcas t _ | .cas t _
-  | .free t _ | .ret t _ _ | .done t => t
-
 /-! ## Two frame facts about every step -/
 
 theorem step_n {fx : Bool} {s s' : St} {e : Ev} (h : stepG fx s e = some s') : s'.n = s.n := by
